@@ -248,6 +248,33 @@ def object_histories(res, seed):
         if not pdta or len(pdta[0]) != pat.lines * pat.tracks * 8:
             res.violation("C03:structure:PDTA-size", f"pattern declared {pat.lines} lines x {pat.tracks} tracks after resizing ({how}) and clear(): PDTA has {len(pdta[0]) if pdta else None} bytes, "
                                                      f"expected {pat.lines * pat.tracks * 8}", case)
+    # files of OTHER writers loaded and written again: fixed-size fields they stored shorter / longer (SNAM as a plain C string,
+    # or 40 bytes), names without terminator - what this library writes conforms, whatever it read
+    for k in range(12):
+        try:
+            c = workload.project_case(seed, 960000 + k, "quick", max_modules=4)
+            chunks = [(x[0], x[1]) for x in iffparse.parse(c.obj.read())]
+        except Exception:
+            continue
+        style = ("c-string", "long", "bare", "c-string+junk")[k % 4]
+        out = []
+        for cid, pl in chunks:
+            if cid == b"SNAM":
+                text = pl.split(b"\0", 1)[0]
+                pl = {"c-string": text + b"\0", "long": (text + b"\0").ljust(40, b"\0"), "bare": text or b"x", "c-string+junk": (text + b"\0old text").ljust(32, b"\0")}[style]
+            out.append((cid, pl))
+        case = {"family": "object-histories", "kind": "foreign-fixed-fields:" + style}
+        res.count("foreign_fixed_field_files")
+        try:
+            o = workload.load(iffparse.build(out))
+            raw2 = o.read()
+        except Exception:
+            res.count("foreign_fixed_field_unloadable")
+            continue
+        judge(res, raw2, build.norm(snapshot.snap_project(o), "before"), case, "foreign-fixed-fields:" + style, obj=o)
+        bad = [len(x[1]) for x in iffparse.parse(raw2) if x[0] == b"SNAM" and len(x[1]) != 32]
+        if bad:
+            res.violation("C03:structure:SNAM-size", f"a project read from a file whose SNAM fields were stored as {style} is written with SNAM chunks of {bad[:4]} bytes (documented: 32)", case)
     for hname in ("handed-a-chunk", "file-without-record"):
         for k in range(4):
             try:
